@@ -252,6 +252,8 @@ CFGS = [
     # address 0 is a valid address (and falsy in Python)
     ([['bypassed', 0x20]], [0, 0x50]),
     ([['bypassed', 0], ['bypassed', 0x21]], ['none', 0x50, (0, 0)]),
+    # claiming bypassed, address lost later
+    ([['bypassed_moved', 128], ['bypassed_cannot', 140]], ['none', 128]),
 ]
 
 
